@@ -18,7 +18,8 @@ RULE = ("segment tables of 1..6 chromosomes x 1..30 segments (runs of equal leve
         "model as parameters); non-trivial = some run of >= 2 mergeable neighbours exists; distinct by hash")
 EXHAUSTIVE = {"quick": False, "thorough": False}
 ASSUMPTIONS = ["rows grouped by chromosome (sorted table) with the default unique index, as the call path guarantees",
-               "the weighted median of unequal cn values inside an ampdel run is C19's subject; only its range is checked here"]
+               "the weighted median of unequal cn values inside an ampdel run is computed with C19's model of weighted_median on the "
+               "pairs sorted by value (tie order unobservable: C19 wmedian_tie_order_unobservable)"]
 TRUSTED_EXTRA = ["pandas groupby(sort=False)/apply ordering, np.average"]
 FILTERS = ("cn", "ci", "sem", "ampdel")
 DEFAULT_THR = (-1.1, -0.25, 0.2, 0.7)
@@ -134,10 +135,9 @@ def _cli_case(rng, op, fl, kind):
     if opt_t:
         # 3..8 levels, the last one above every log2 of the table (the model never consults the ratio 2^log2); the
         # half-hundredths keep them off the two-decimal log2 values of the table (knife-edge rule)
-        # when ampdel acts before cn, at most 6 levels: every amplified call is then exactly 5, so a squashed ampdel run
-        # has one cn (the weighted median of unequal calls is C19's subject -- see ASSUMPTIONS -- and the call_filters
-        # model cannot hand it on to the cn filter)
-        k = rng.randint(3, 6 if ("ampdel" in fl and "cn" in fl and fl.index("ampdel") < fl.index("cn")) else 8)
+        # (up to 8 levels: an ampdel run may then squash unequal calls, e.g. 5 and 6, into their weighted median,
+        # which the model computes with C19's weighted-median model and hands on to a following cn filter)
+        k = rng.randint(3, 8)
         thr = sorted(rng.choice([round(rng.uniform(-3, 0.6), 2) + 0.005, rng.uniform(-2.5, 0.65)]) for _ in range(k - 1))
         thr.append(rng.choice([0.7, 0.75, 1.0, rng.uniform(0.7, 2)]))
     else:
@@ -362,8 +362,8 @@ def judge(case, impl, resp):
             if m[:3] != im[:3] or m[5] != im[5] or not _close(im[4], m[4]) or not _close(im[6], m[6]):
                 dis.append(f"row {k}: model {m} impl {im}")
                 break
-            # cn: compared when the model reports one (all members of the run agree)
-            if m[7] is not None and not _close(im[7], m[7]):
+            # cn (the run's common value, or the weighted median of unequal calls inside an ampdel run)
+            if not _close(im[7], m[7]):
                 dis.append(f"row {k}: cn model {m[7]} impl {im[7]}")
                 break
     return spec, dis, None
